@@ -9,6 +9,14 @@
 import json, os, re, shutil, subprocess, sys, time
 
 MUT = "/tmp/mut"
+
+
+def src_of(pid, n):
+    """(directory, file number) of mutant n: 1,2 = round 1 (out1/), 3,4 = round 2 (out/)."""
+    if n >= 3:
+        return f"{MUT}/{pid}/out", n - 2
+    d = f"{MUT}/{pid}/out1"
+    return (d if os.path.exists(d) else f"{MUT}/{pid}/out"), n
 ENV = dict(os.environ, CARGO_NET_OFFLINE="true")
 KNOWN_BAD = {"basic_osu", "rng_mania_hitresults"}
 
@@ -24,8 +32,8 @@ def failed_tests(out):
 
 def confirm(pid, n, features=""):
     wt = f"{MUT}/{pid}/wt"
-    out_dir = f"{MUT}/{pid}/out"
-    diff, demo = f"{out_dir}/m{n}.diff", f"{out_dir}/demo{n}.rs"
+    out_dir, k = src_of(pid, n)
+    diff, demo = f"{out_dir}/m{k}.diff", f"{out_dir}/demo{k}.rs"
     res = {"property": pid, "mutant": n, "features": features}
     sh("git checkout -- . && git clean -fdq tests/", wt)
     rc, o = sh(f"git apply --check {diff} && git apply {diff}", wt)
@@ -34,6 +42,7 @@ def confirm(pid, n, features=""):
         res["error"] = o[-500:]
         return res
     shutil.copy(demo, f"{wt}/tests/zz_demo{n}.rs")
+    # demos may include auxiliary files next to them (rare); nothing else is copied
     t0 = time.time()
     feat = f" --features {features}" if features else ""
     rc, o = sh(f"cargo test --offline --no-fail-fast{feat} 2>&1", wt)
@@ -58,9 +67,10 @@ def confirm(pid, n, features=""):
 
 
 def detect(pid, n, checks):
-    diff = f"{MUT}/{pid}/out/m{n}.diff"
+    diff = f"/verif/seeded/{pid}-m{n}/patch.diff"
     if not os.path.exists(diff):
-        diff = f"/verif/seeded/{pid}-m{n}/patch.diff"
+        d, k = src_of(pid, n)
+        diff = f"{d}/m{k}.diff"
     rc, o = sh(f"git -C /repo status --porcelain --untracked-files=no", "/repo")
     if o.strip():
         return {"error": "/repo is not clean: " + o}
@@ -82,11 +92,11 @@ def detect(pid, n, checks):
 
 
 def store(pid, n, extra):
-    src = f"{MUT}/{pid}/out1" if os.path.exists(f"{MUT}/{pid}/out1/m{n}.diff") and not os.path.exists(f"{MUT}/{pid}/out/m{n}.diff") else f"{MUT}/{pid}/out"
+    src, k = src_of(pid, n)
     dst = f"/verif/seeded/{pid}-m{n}"
     os.makedirs(dst, exist_ok=True)
-    shutil.copy(f"{src}/m{n}.diff", f"{dst}/patch.diff")
-    shutil.copy(f"{src}/demo{n}.rs", f"{dst}/demo.rs")
+    shutil.copy(f"{src}/m{k}.diff", f"{dst}/patch.diff")
+    shutil.copy(f"{src}/demo{k}.rs", f"{dst}/demo.rs")
     if os.path.exists(f"{src}/notes.md"):
         shutil.copy(f"{src}/notes.md", f"{dst}/agent_notes.md")
     meta = {"breaks_property": pid, "mutant": n}
@@ -94,16 +104,16 @@ def store(pid, n, extra):
     json.dump(meta, open(f"{dst}/meta.json", "w"), indent=1)
 
 
-NEEDS = {}
+ROUND = (3, 4) if os.environ.get("MUT_ROUND") == "2" else (1, 2)
 
 
 def sweep(ids):
     """confirm-data + detection for every delivered mutant; writes /verif/seeded/<id>-m<n>/."""
     head = subprocess.run("git -C /repo rev-parse --short HEAD", shell=True, stdout=subprocess.PIPE, text=True).stdout.strip()
     for pid in ids:
-        for n in (1, 2):
-            src = f"{MUT}/{pid}/out1" if os.path.exists(f"{MUT}/{pid}/out1/m{n}.diff") and not os.path.exists(f"{MUT}/{pid}/out/m{n}.diff") else f"{MUT}/{pid}/out"
-            if not os.path.exists(f"{src}/m{n}.diff"):
+        for n in ROUND:
+            src, k = src_of(pid, n)
+            if not os.path.exists(f"{src}/m{k}.diff"):
                 continue
             conf = {}
             cpath = f"/verif/.build/mut/confirm-{pid}-{n}.json"
